@@ -72,7 +72,11 @@ def check (shared : Bool) (script data : List Byte) (prefixes : List (List Byte)
       | some cs =>
         if cs.flatten != script then "FAIL:chunks"
         else if linesOfC (script.length + 1) cs != linesOf (script.length + 1) script
-        then "FAIL:chunking-changes-lines" else "ok"
+        then "FAIL:chunking-changes-lines"
+        else
+          let rc := readLineCGo true false [] cs []
+          let rf := readLine true script []
+          if (rc.1, rc.2.1, rc.2.2.flatten) != rf then "FAIL:chunking-changes-read" else "ok"
       | none => "ok"
 
 end YashModel.Input
